@@ -578,17 +578,153 @@ def run_fit1d_standin(tier="quick", seed=0):
     return res
 
 
+# ------------------------------------------------------------------------------------------ fit_spline: the interpolation step
+RX_MIDVEL = r"if constexpr \(K > 2\) \{\s*// modify segment to ensure it is interpolating.*?cum_coefs\.col\(mid\)\s*=\s*[^;]*;\s*\}"
+MV_CFG = [(3, "se2"), (5, "se2"), (6, "se2"), (5, "so3"), (5, "v2")]
+MV_TYPES = {"se2": ("smooth::SE2d", G_.se2), "so3": ("smooth::SO3d", G_.so3), "v2": ("Eigen::Matrix<double, 2, 1>", G_.r2)}
+
+
+def midvel_tu():
+    """the `if constexpr (K > 2) { ... }` block of fit_spline (middle control velocity re-solved by log), extracted verbatim from
+    fit_impl.hpp by a must-fire rule and wrapped into a function template with the block's free names as parameters; nothing dropped"""
+    src = open(FIT).read()
+    mm = re.findall(RX_MIDVEL, src, flags=re.S)
+    if len(mm) != 1:
+        raise engine.Infra("extraction rule midvel matched %d times in fit_impl.hpp (must fire exactly once)" % len(mm))
+    t = ('#include <math.h>\n#include <stdlib.h>\n#include <cmath>\n#include <Eigen/Core>\n#include <smooth/se2.hpp>\n#include <smooth/so3.hpp>\n#include <smooth/lie_groups.hpp>\n#include <smooth/manifolds.hpp>\nusing namespace smooth;\n'
+         'template<int K, class G> void midvel(Eigen::Matrix<double, Dof<G>, K> & cum_coefs, const G & g, const G & g_next)\n{\n    ' + mm[0] + '\n}\n'
+         'template<class G> G getg(const double*p){ if constexpr (std::is_base_of_v<Eigen::MatrixBase<G>, G>) { return Eigen::Map<const G>(p); } else { return smooth::Map<const G>(p); } }\n'
+         'template<class G> void putg(double*p, const G&g){ if constexpr (std::is_base_of_v<Eigen::MatrixBase<G>, G>) { Eigen::Map<G> O(p); O = g; } else { smooth::Map<G> O(p); O = g; } }\n'
+         'template<int K, class G> void run(const double*c,const double*g,const double*gn,double*out,double*prod,double*target){\n'
+         '  constexpr int N = Dof<G>; Eigen::Matrix<double, N, K> V = Eigen::Map<const Eigen::Matrix<double, N, K>>(c);\n'
+         '  const G a = getg<G>(g), b = getg<G>(gn); midvel<K, G>(V, a, b);\n'
+         '  Eigen::Map<Eigen::Matrix<double, N, K>> O(out); O = V;\n'
+         '  G P = Identity<G>(); for (int k = 0; k < K; ++k) { P = composition<G>(P, ::smooth::exp<G>(V.col(k))); }\n'
+         '  putg<G>(prod, P); putg<G>(target, composition<G>(::smooth::inverse<G>(a), b)); }\n')
+    for K, g in MV_CFG:
+        t += 'extern "C" void mv_%d_%s(const double*c,const double*g,const double*gn,double*out,double*prod,double*target){ run<%d, %s>(c,g,gn,out,prod,target); }\n' % (K, g, K, MV_TYPES[g][0])
+    return t
+
+
+def run_midvel(K, g, tier="quick", seed=0):
+    """after the block: exp(v_1) * ... * exp(v_K) == inverse(g) * g_next (the segment ends exactly at the next data point), and only the
+    middle control velocity was modified"""
+    ty, G = MV_TYPES[g]
+    res = Results(PROP)
+    tag = "%s/fit_spline/interpolation-step<%d,%s>" % (PROP, K, ty)
+    isvec = isinstance(G, G_.Rn)
+    N, R = G.dof, G.rep
+
+    def go():
+        xt = Extract("c14_midvel", midvel_tu(), rules=())
+        res.functions.add("fit_spline (block `if constexpr (K > 2)`: middle control velocity re-solved by log)")
+        rng = random.Random(seed + 5 * K)
+        fn = "mv_%d_%s" % (K, g)
+        bufs = [("c", N * K, "d"), ("g", R, "d"), ("h", R, "d"), ("out", N * K, "d"), ("prod", R, "d"), ("target", R, "d")]
+
+        def samp(rn):
+            e = {}
+            for k in range(K):
+                tv = {"_%d" % i: rn.uniform(-0.5, 0.5) for i in range(N)} if isvec else G.sample_tangent(rn, "_", rotnorm=rn.uniform(0.1, 0.6), tscale=0.5)
+                for i in range(N):
+                    e["c%d" % (k * N + i)] = tv["_%d" % i]
+            for nm in ("g", "h"):
+                ge = {"_%d" % i: rn.uniform(-1, 1) for i in range(R)} if isvec else G.sample_group(rn, "_")
+                if not isvec:
+                    while any(abs(abs(ge["_%d" % i]) - 1.0) < 1e-9 or ge["_%d" % i] == 0.0 for grp in G.unit for i in grp):
+                        ge = G.sample_group(rn, "_")
+                for i in range(R):
+                    e["%s%d" % (nm, i)] = ge["_%d" % i]
+            return e
+
+        def hyp(ctx):
+            if not isvec:
+                for nm in ("g", "h"):
+                    for grp in G.unit:
+                        engine.unit_relation(ctx, ["%s%d" % (nm, i) for i in grp])
+        views = xt.run_concolic(fn, bufs, [samp(rng) for _ in range(6)])
+        mid = K // 2
+        C = vars_("c", N * K)
+        for k, pv in enumerate(views):
+            oid = "%s/p%d" % (tag, k)
+            if pv.status != "ok":
+                e0 = pv.samples[0]
+                res.add(oid + "/abnormal", "refuted", "struct", 0.0, "%s: %s" % (pv.status, pv.detail[:200]), witness=dict(env=fmt_env(e0)), extra=dict(confirmed=True, replay=write_replay(
+                    oid + "/abnormal", dict(obligation=oid, status=pv.status, detail=pv.detail, witness=fmt_env(e0)))))
+                continue
+            res.paths += 1
+            out = pv.out("out")
+            untouched = all(out[j * N + i] is C[j * N + i] for j in range(K) for i in range(N) if j != mid)
+            res.add(oid + "/only-the-middle-velocity-changes", "proved" if untouched else "refuted", "struct", 0.0, "" if untouched else "another control velocity was modified",
+                    extra=None if untouched else dict(confirmed=False))
+            if pv.cls not in ("closed", "plain"):
+                continue
+            if isvec:
+                prs = [("[%d]" % i, a, b) for i, (a, b) in enumerate(zip(pv.out("prod"), pv.out("target")))]
+            else:
+                prs = [("[%d,%d]" % (i, j), a, b) for (i, j, a), (_, _, b) in zip(G.M(pv.out("prod")).flat(), G.M(pv.out("target")).flat())]
+            prove_pairs(res, oid + "/segment-ends-at-next-data-point", prs, hyp, samp, pv, (xt, fn, bufs), seed=seed, budget=300 if tier == "quick" else 1200)
+    guarded(res, tag, go)
+    return res
+
+
+def run_midvel_standin(tier="quick", seed=0):
+    """[bounded] the extracted interpolation block natively for the degrees / groups whose product of exponentials the normal form
+    does not finish (K = 5, 6 on SE2 / SO3): exp(v_1) ... exp(v_K) == inverse(g) * g_next to 1e-9 on random inputs"""
+    import ctypes
+    from irsx import build
+    res = Results(PROP)
+    try:
+        so = build.compile_tu("c14_midvel", midvel_tu(), "so-gcc", (), ())
+        lib = ctypes.CDLL(so)
+    except Exception as e:
+        res.add(PROP + "/standin/fit_spline/interpolation-step/build", "error", "infra", 0.0, str(e)[-1500:])
+        return res
+    rng = random.Random(seed + 55)
+    n = 200 if tier == "quick" else 3000
+    for K, g in [(5, "se2"), (6, "se2"), (5, "so3")]:
+        ty, G = MV_TYPES[g]
+        N, R = G.dof, G.rep
+        worst, wit = 0.0, None
+        f = getattr(lib, "mv_%d_%s" % (K, g))
+        f.restype = None
+        for _ in range(n):
+            c = []
+            for k in range(K):
+                tv = G.sample_tangent(rng, "_", rotnorm=rng.uniform(0.05, 0.8), tscale=0.7)
+                c += [tv["_%d" % i] for i in range(N)]
+            ge, he = G.sample_group(rng, "_"), G.sample_group(rng, "_")
+            gv, hv = [ge["_%d" % i] for i in range(R)], [he["_%d" % i] for i in range(R)]
+            out, prod, tgt = (ctypes.c_double * (N * K))(), (ctypes.c_double * R)(), (ctypes.c_double * R)()
+            f((ctypes.c_double * (N * K))(*c), (ctypes.c_double * R)(*gv), (ctypes.c_double * R)(*hv), out, prod, tgt)
+            p_, t_ = list(prod), list(tgt)
+            if g == "so3" and sum(a * b for a, b in zip(p_, t_)) < 0:
+                p_ = [-x for x in p_]
+            err = max(abs(a - b) for a, b in zip(p_, t_)) / max(1.0, max(abs(x) for x in t_))
+            if not (err <= worst):
+                worst, wit = err, dict(c=c, g=gv, g_next=hv, prod=list(prod), target=list(tgt))
+        ok = worst <= 1e-9
+        oid = "%s/standin/fit_spline/interpolation-step<%d,%s>/segment-ends-at-next-data-point" % (PROP, K, ty)
+        res.add(oid, "bounded-ok" if ok else "bounded-fail", "bounded-standin", 0.0, "max error %.3g over %d inputs" % (worst, n), witness=None if ok else wit,
+                extra=None if ok else dict(confirmed=True, replay=write_replay(oid, dict(obligation=oid, witness=wit, function="mv_%d_%s" % (K, g), tu_text=midvel_tu(),
+                                                                                     reason="after fit_spline's interpolation step the segment does not end at the next data point"))))
+    return res
+
+
 def tasks(tier, seed=0):
     return [("c14", "run_dubins_select", (), dict(tier=tier, seed=seed, canary=False)),
             ("c14", "run_dubins_curve", (1,), dict(tier=tier, seed=seed)),
             ("c14", "run_dubins_curve", (3,), dict(tier=tier, seed=seed)),
             ("c14", "run_dubins_standin", (), dict(tier=tier, seed=seed)),
             ("c14", "run_bspline_span", (), dict(tier=tier, seed=seed)),
-            ("c14", "run_fit1d_standin", (), dict(tier=tier, seed=seed))]
+            ("c14", "run_fit1d_standin", (), dict(tier=tier, seed=seed)),
+            ("c14", "run_midvel", (3, "se2"), dict(tier=tier, seed=seed)), ("c14", "run_midvel", (5, "v2"), dict(tier=tier, seed=seed)),
+            ("c14", "run_midvel_standin", (), dict(tier=tier, seed=seed))]
 
 
 def prebuild(tier):
-    return [("c14_dubins", tu(), "ll", RULES, ()), ("c14_dubins", tu(), "so-gcc", RULES, ()), ("c14_fit", fit_tu(), "so-gcc", (), ())]
+    return [("c14_dubins", tu(), "ll", RULES, ()), ("c14_dubins", tu(), "so-gcc", RULES, ()), ("c14_fit", fit_tu(), "so-gcc", (), ()), ("c14_midvel", midvel_tu(), "ll", (), ()),
+            ("c14_midvel", midvel_tu(), "so-gcc", (), ())]
 
 
 TRUSTED = ["A1 real-arithmetic reading (minimality, time span, t_max)", "A2 libm contracts", "A5 the length of a word is R a1 + d2 + R a3 (arc length = radius x angle)",
@@ -596,5 +732,6 @@ TRUSTED = ["A1 real-arithmetic reading (minimality, time span, t_max)", "A2 libm
            "A7 targets and radii: paths discovered concolically on a stratified sample", "std::ranges::minmax returns (min, max) (library contract, assumed)",
            "C12 contracts of Spline::ConstantVelocity / operator+=; C13 contracts of BSpline::t_min / t_max"]
 ASSUMPTIONS = ["R > 0", "dt > 0, strictly increasing time stamps"]
-UNVERIFIED = ["fit_spline, fit_spline_1d (sparse linear solves: SparseLU / KKT LDLt are outside the executor's and CBMC's reach) -- no claim", "reparameterize_spline (LP passes) -- no claim",
+UNVERIFIED = ["fit_spline as a whole and fit_spline_1d (sparse linear solves are outside the executor's and CBMC's reach): only the interpolation step of fit_spline is under contract "
+              "(K = 3 on SE2, K = 5 on vectors; K = 5, 6 on SE2 / SO3 bounded), fit_spline_1d by a bounded stand-in", "reparameterize_spline (LP passes) -- no claim",
               "the geometry of dubins_csc / dubins_ccc (that each word reaches the target): bounded stand-in only", "fit_bspline beyond its time span (the optimisation result)"]
